@@ -118,6 +118,24 @@ theorem C11_terminal (cur : St) (evs : List St) (h : DocPath cur evs) (hc : cur 
   | nil => rfl
   | cons e es => obtain ⟨_, _, _, _, h5, h6, _⟩ := h; rcases hc with rfl | rfl <;> contradiction
 
+/-- whatever a component reports during start, run and shutdown, and whether or not its start or
+shutdown fails, the events the service delivers for it follow the documented machine -/
+theorem C11_lifecycle_doc (l : Life) : DocPath .none l.events := C11_events_doc l.reports
+
+/-- a well-behaved component that reports nothing itself is seen as Starting, OK, Stopping, Stopped -/
+theorem C11_lifecycle_quiet :
+    (Life.mk true [] false true [] [] false).events = [.starting, .ok, .stopping, .stopped] := by decide
+
+/-- a component whose start fails is seen as Starting, PermanentError, and is still taken through
+Stopping and Stopped by the shutdown that follows -/
+theorem C11_lifecycle_start_failure :
+    (Life.mk true [] true false [] [] false).events = [.starting, .permanent, .stopping, .stopped] := by decide
+
+/-- a component that was never reached by start-up produces no event at all -/
+theorem C11_lifecycle_never_started (fs : Bool) (ds r dstop : List St) (a b : Bool) :
+    (Life.mk false ds a b r dstop fs).events = [] := by
+  cases fs <;> simp [Life.events, Life.reports, run, step, transition] <;> decide
+
 /-! ## illegal reports are no-ops; automatic OK only from Starting -/
 
 theorem C11_illegal_noop (cur s : St) (h : allowed cur s = false) : step cur (.status s) = (cur, Option.none) := by
